@@ -262,7 +262,7 @@ func init() {
 		Assumptions: []string{"porcupine v1.3.0 and the 9-operation sequential model are the reference", "an operation without a reply makes its history inconclusive"},
 		Setup: func(tier string, seed uint64) int {
 			c16.seed, c16.tier = seed, tier
-			return map[string]int{"quick": 1800, "thorough": 100000}[tier]
+			return map[string]int{"quick": 3600, "thorough": 100000}[tier]
 		},
 		Run: c16run,
 		Describe: func(idx int) any {
